@@ -158,6 +158,33 @@ def csv_append(sym, fmt, encoding, kind, L):
         check(back == exp, 'to* + append* read back', back, exp)
 
 
+def rewrite(sym, fmt, kind):
+    """to* replaces what the target held (also an in-memory source written twice), and a from* view created before the
+    rewrite reads the new contents on its next pass."""
+    n1, n2 = sym.choice('n1', 3), sym.choice('n2', 3)
+    hdr = ['f', 'g']
+    t1 = [hdr] + [['a%d' % i, 'x'] for i in range(n1)]
+    t2 = [hdr] + [['b%d' % i, 'y,"z"'] for i in range(n2)]
+    if fmt == 'json':
+        assume_rows = n1 >= 1 and n2 >= 1
+        if not assume_rows:
+            return
+    with private_tempdir() as td:
+        src = _source(td, kind, fmt)
+        w = {'csv': petl.tocsv, 'tsv': petl.totsv, 'pickle': petl.topickle, 'json': petl.tojson}[fmt]
+        r = {'csv': petl.fromcsv, 'tsv': petl.fromtsv, 'pickle': petl.frompickle, 'json': petl.fromjson}[fmt]
+        w(t1, src)
+        view = r(_reader(src)) if kind != 'memory' else None
+        first = [tuple(x) for x in view] if view is not None else None
+        w(t2, src)
+        back = [tuple(x) for x in r(_reader(src))]
+        check(back == [tuple(x) for x in t2], 'second to* on the same target did not replace its contents', back, t2)
+        if view is not None:
+            check(first == [tuple(x) for x in t1], 'first read', first)
+            again = [tuple(x) for x in view]
+            check(again == [tuple(x) for x in t2], 'a from* view does not reflect the rewritten source on its next pass', again, t2)
+
+
 TYPED_ALL = [None, 0, 2.5, 'text', b'by\x00tes', datetime.date(2020, 1, 2), -3, True, 'text', '', b'by\x00tes', datetime.date(2020, 1, 2), datetime.datetime(2020, 1, 2, 3, 4, 5),
          Decimal('1.50'), (1, 'a'), [1, None], float('inf')]
 
@@ -276,6 +303,9 @@ def jobs(tier):
         for form in ('array', 'lines', 'arrays'):
             out.append(dict(name='json-%s/%s' % (form, kind), func='json_roundtrip',
                             params=dict(form=form, kind=kind, L=1, N=1 if q else 2), budget=B))
+    for fmt in ('csv', 'tsv', 'pickle', 'json'):
+        for kind in ('path', 'gz', 'memory'):
+            out.append(dict(name='rewrite/%s/%s' % (fmt, kind), func='rewrite', params=dict(fmt=fmt, kind=kind), budget=B))
     out.append(dict(name='json-array/path/L<=%d' % L, func='json_roundtrip', params=dict(form='array', kind='path', L=L, N=1),
                     budget=B))
     return out
